@@ -1948,12 +1948,19 @@ func (s *ScopedKeyManager) RenameAccount(ns walletdb.ReadWriteBucket,
 		return managerError(ErrDatabase, str, nil)
 	}
 
-	// Update in-memory account info with new name if cached and the db
-	// write was successful.
+	// Update in-memory account info with new name if cached, once the db
+	// write has been committed. Doing it before would leave the cache with
+	// a name that is not stored whenever the caller's transaction is
+	// rolled back.
 	if err == nil {
-		if acctInfo, ok := s.acctInfo[account]; ok {
-			acctInfo.acctName = name
-		}
+		ns.Tx().OnCommit(func() {
+			s.mtx.Lock()
+			defer s.mtx.Unlock()
+
+			if acctInfo, ok := s.acctInfo[account]; ok {
+				acctInfo.acctName = name
+			}
+		})
 	}
 
 	return err
